@@ -66,6 +66,26 @@ CHECKS = {
             "Fault enumeration over hostile inputs: for a basket of small honest proofs truncation at every offset, every byte replaced by 0x00/0x01/0x7f/0x80/0xff, every length/count/size/scalar field set to 0/1/max-1/max/+-1/*2 (exhaustive; thorough adds every bit flip); chains of 1..3 structure-aware mutations of generated proofs over all 12 field/hasher pairs; proofs spliced from the components of two different proofs; raw byte strings with and without a valid context prefix. Parse and verify (against the proof's own and against another statement) must return Ok/Err: any panic (overflow checks on), any single allocation above max(16 MiB, 4096 x input), any fatal signal, absurd allocation request or non-termination is a violation with the input as replay file.",
             "The harness' own Air is total (falls back to a fixed AIR when the proof's trace shape does not match the statement), so panics are the library's. Two open known findings: assertions of AirContext reached through the infallible Air::new with untrusted options (API-level, see known_findings.json). Out-of-bounds reads inside unsafe code that do not crash are not observable here (no sanitizer in this tier).",
             "DESIGN.md 3/C06"),
+    "C05": ("fault_enumeration", "vf-fri",
+            "property-based adversarial testing (proptest) with adaptive provers (AdvFri) and an exact legitimacy oracle",
+            "Fault enumeration: 11 adversary strategies in 6 families (honest folding of random / too-high-degree / partially corrupted functions, over-long remainder, switching to another function at some layer, values opened from another chain or solved after the queries so that only one Merkle check can notice, folding with a wrong challenge incl. crafted instances only that one consistency check can notice, omitted / duplicated / swapped layers, remainder interpolated after the queries) played by an independent FRI prover that writes FriProof wire bytes itself against the real FriVerifier/DefaultVerifierChannel, over folding 2/4/8/16, all remainder sizes, blowups, 1..255 queries, base and extension fields, six hashers. Acceptance is allowed only when an exact ground-truth verdict computed from the actual query positions shows that nothing visible was wrong.",
+            "Panics on omitted/duplicated layers are labelled, not judged (C06's subject). Degree bounds other than 2^k-1 and more than one partition are not explored. Collision resistance assumed.",
+            "DESIGN.md 3/C05"),
+    "C15": ("exploration", "vf-fri",
+            "property-based testing (proptest) with an independent coefficient-domain reference model (vf-ref) and a differential byte-level prover (AdvFri honest)",
+            "Generated-input search: honest FriProver/FriVerifier over 33 element-type x hasher combinations and schedules well-formed by construction (one prover instance reused for 2-3 proofs, direct and after FriProof bytes round trip, duplicate and post-folding-colliding positions drawn and forced, up to 255 queries, domains up to 2^12 quick / 2^14 thorough); the folding identity apply_drp::<2|4|8|16> against reference interpolation and interleaved coefficient slices over integer residues (n <= 256); fold_positions / map_positions_to_indexes against their models; FriOptions::num_fri_layers exhaustively against a closed formula; AdvFri(honest) byte-identical to FriProver.",
+            "exhaustive:true only for num-layers; folding identity bounded to n <= 256; degree bound 1 exercised by a dedicated sub-check.",
+            "DESIGN.md 3/C15"),
+    "C12": ("exploration", "vf-serde",
+            "property-based testing (proptest) with constructor-accepted boundary members weighted, plus exhaustive enumeration of the ProofOptions space",
+            "Generated-input search: round trip (value equal, no byte left, exactly the appended foreign bytes left) of 50 primitive/container types, 8 field element types, 5 digest types, FieldExtension, ProofOptions (whole constructor space enumerated), TraceInfo, Context, Commitments, Queries, OodFrame, FriProof (dummy, FriProver-built, decoded from laid-out encodings), Proof (new_dummy and assembled from parts) through SliceReader, Cursor and ReadAdapter over 6 chunking classes, with boundary members (vint64 boundaries, 254/255 widths, 0/255 random elements, 65535-byte metadata, 2^31 LDE, 255 queries/layers/node vectors).",
+            "Proofs from a real prover run are covered by C01. Second-level parsers (Queries::parse, OodFrame::parse) are not asserted here. get_size_hint is documented as an estimate and is not asserted.",
+            "DESIGN.md 3/C12"),
+    "C13": ("exploration", "vf-serde",
+            "stateful / model-based property-based testing (proptest): operation sequences against SliceReader as the model",
+            "Generated-input search over histories: 1..59-operation sequences over all 17 ByteReader operations x byte streams <= 2000 bytes x 6 source-chunking classes (1-byte, <16, random, around 255/256/257, around 511/512, one big chunk); ReadAdapter is compared step by step with SliceReader (Cursor must agree too): identical values, the same error variant at the same step, check_eor one-sided (adapter Err implies model Err), has_more_bytes, final drain (each byte consumed exactly once); plus requests near usize::MAX.",
+            "Zero-length source reads before EOF are not generated (Ok(0) means EOF by std::io::Read). The source never fails. Out-of-bounds reads that do not crash are not observable (no sanitizer tier).",
+            "DESIGN.md 3/C13"),
 }
 
 NOT_YET = {
